@@ -63,7 +63,8 @@ def remove_unused_self_cls(source: str) -> str:
                     continue
                 decorator = "staticmethod"
                 delete_decorators.add("classmethod")
-            funcdef_copy = copy.copy(funcdef)
+            # The function definition belongs to the cached syntax tree, which must not be modified
+            funcdef_copy = copy.deepcopy(funcdef)
             funcdef_copy.lineno = min(x.lineno for x in ast.walk(funcdef) if hasattr(x, "lineno"))
             funcdef_copy.decorator_list = [
                 dec
@@ -78,7 +79,7 @@ def remove_unused_self_cls(source: str) -> str:
                     lineno=funcdef.lineno - 1,
                     col_offset=funcdef.col_offset,
             ),)
-            args = funcdef.args.posonlyargs or funcdef.args.args
+            args = funcdef_copy.args.posonlyargs or funcdef_copy.args.args
             if args:
                 del args[0]
             if decorator == "classmethod":
@@ -234,9 +235,16 @@ def fix_unconventional_class_definitions(source: str) -> str:
 
     {{ClassName}}.{{attr}} = {{value}}
     """
-    template = core.compile_template(template)
-    template[0].bases = list
-    template[0].decorator_list = list
+    class_template, *assign_templates = core.compile_template(template)
+    # The compiled template is cached, so any bases and decorators are allowed in a copy of it
+    class_template = ast.ClassDef(
+        name=class_template.name,
+        bases=list,
+        keywords=class_template.keywords,
+        body=class_template.body,
+        decorator_list=list,
+    )
+    template = [class_template, *assign_templates]
 
     transaction = 0
     root = core.parse(source)
